@@ -231,9 +231,20 @@ func (p *GleecePipeline) Validate() ([]diagnostics.EntityDiagnostic, error) {
 
 func (p *GleecePipeline) getControllers() []metadata.ControllerMeta {
 	controllerNodes := p.symGraph.FindByKind(common.SymKindController)
-	return linq.Map(controllerNodes, func(node *symboldg.SymbolNode) metadata.ControllerMeta {
+	controllers := linq.Map(controllerNodes, func(node *symboldg.SymbolNode) metadata.ControllerMeta {
 		return node.Data.(metadata.ControllerMeta)
 	})
+
+	// The graph keeps its nodes in a map. Order the controllers so that validation and reduction
+	// (which hands out import serials on a first-come basis) do not depend on map iteration order
+	slices.SortFunc(controllers, func(a, b metadata.ControllerMeta) int {
+		if byName := strings.Compare(a.Struct.Name, b.Struct.Name); byName != 0 {
+			return byName
+		}
+		return strings.Compare(a.Struct.PkgPath, b.Struct.PkgPath)
+	})
+
+	return controllers
 }
 
 func (p *GleecePipeline) reduceControllers(controllers []metadata.ControllerMeta) ([]definitions.ControllerMetadata, error) {
